@@ -216,6 +216,52 @@ def filesib(run, fx):
         run.violated('FILESIB', 'm_pFileFace users', '', 'the library distinguishes file faces from callback faces in %s' % sorted(users - allowed))
 
 
+def _handwritten_min(fn, use, x):
+    """x (read at element `use`) is min(sizeof(gr_face_ops), ops.size) spelled out: a conditional expression, or a local whose
+    definitions are exactly those two values, the ops.size one under `ops.size <= sizeof` and the other reaching the use only
+    when that test failed"""
+    from .util import reaches_avoiding
+    is_size = lambda n: fn.deref(n)['k'] == 'MemberExpr' and fn.deref(n).get('d', '').endswith('gr_face_ops::size')
+    is_const = lambda n: fn.strip_all_casts(n).get('v') is not None or fn.deref(n).get('v') is not None
+    n = fn.strip_all_casts(x)
+    if n['k'] == 'ConditionalOperator':
+        a, b = n['c'][1], n['c'][2]
+        if not ((is_size(a) and is_const(b)) or (is_size(b) and is_const(a))):
+            return False
+        pol_size = is_size(a)
+        for at, p in dom.atoms(fn, fn.N(n['c'][0]), pol_size):
+            f = dom.norm(fn, at, p, resolve=True)
+            if ('size' in f[0] and f[1] in ('<', '<=') and dom._isint(f[2])) or ('size' in f[2] and f[1] in ('>', '>=') and dom._isint(f[0])):
+                return True
+        return False
+    if n['k'] != 'DeclRefExpr' or n.get('vid') is None:
+        return False
+    vid = n['vid']
+    defs = []
+    for _, d in fn.elements():
+        if d['k'] == 'DeclStmt':
+            defs.extend((d, x_['init']) for x_ in d.get('decls', []) if x_.get('vid') == vid and x_.get('init') is not None)
+        elif d['k'] == 'BinaryOperator' and d.get('op') == '=' and fn.strip_all_casts(d['c'][0])['k'] == 'DeclRefExpr' and fn.strip_all_casts(d['c'][0]).get('vid') == vid:
+            defs.append((d, d['c'][1]))
+    if len(defs) != 2:
+        return False
+    sz = [(d, r) for d, r in defs if is_size(r)]
+    ct = [(d, r) for d, r in defs if is_const(r) and not is_size(r)]
+    if len(sz) != 1 or len(ct) != 1:
+        return False
+    small = lambda f: (('size' in f[0] and f[1] in ('<', '<=') and dom._isint(f[2])) or ('size' in f[2] and f[1] in ('>', '>=') and dom._isint(f[0])))
+    fs = [f[:3] for f in dom.facts_at(fn, sz[0][0]['i'])]
+    if not any(small(f) for f in fs):
+        return False
+    # the constant definition reaches the use only around the ops.size one, i.e. when the test failed
+    if reaches_avoiding(fn, ct[0][0], use, [sz[0][0]]):
+        # some path avoids the ops.size assignment: it must have taken the failing edge of that very test
+        sb = fn.block_of[sz[0][0]['i']]
+        guards = [(c_, p_) for c_, p_ in dom.edge_guards(fn, sb)]
+        return bool(guards) and fn.block_of[ct[0][0]['i']] in fn.dominators()[sb]
+    return True
+
+
 def opssize(run, fx):
     """gr_face_ops is a versioned struct: the client says in ops.size how much of it it filled in.  The face keeps its own copy,
     zeroed first and then filled with at most min(sizeof m_ops, ops.size) bytes; nothing else writes m_ops.  (A plain struct
@@ -251,9 +297,11 @@ def opssize(run, fx):
         elif kind in ('memcpy', 'memmove') and fn.q == 'graphite2::Face::Face':
             sz = fn.deref(e['args'][2])
             inner = [fn.strip_all_casts(a) for a in (sz.get('args') or [])] if sz['k'] == 'CallExpr' and (sz.get('fq') or '').split('<')[0].endswith('::min') else []
-            has_size = any(a['k'] == 'MemberExpr' and a.get('d', '').endswith('gr_face_ops::size') for a in inner)
-            has_sizeof = any(a.get('v') is not None for a in inner)
+            has_size = any(fn.deref(a)['k'] == 'MemberExpr' and fn.deref(a).get('d', '').endswith('gr_face_ops::size') for a in inner)
+            has_sizeof = any(a.get('v') is not None or fn.deref(a).get('v') is not None for a in inner)
             if has_size and has_sizeof:
+                ok_cpy = (fn, e)
+            elif _handwritten_min(fn, e, e['args'][2]):
                 ok_cpy = (fn, e)
             else:
                 bad = bad or (fn, e, 'copies `%s` bytes, not min(sizeof m_ops, ops.size)' % fn.render(e['args'][2]))
